@@ -277,7 +277,6 @@ def obligations(cx):
             cx.ob("function.n%d.m%d.shape" % (n, m), [], blit(len(f.f['a'].items) == n and len(f.f['b'].items) == m + 1 and not r.ex.ext_writes), kind='paths', function='PervaporationFunction.from_array')
     cx.bounded.append(dict(function='PervaporationFunction.from_array/__call__/__mul__', bound="all %d shapes with n, m <= %d" % ((maxo + 1) ** 2, maxo),
                            reason="coefficient lists are sliced and summed: unrolled per shape (complete for the orders find_best_fit tries by default, <= 4)"))
-    wrong = src.find('PervaporationFunction.from_array')
     cx.assume_note("assumed contract of scipy.optimize.minimize: terminates, deterministic function of (objective, x0, method), does not modify its inputs")
     cx.assume_note("determinism of fit/find_best_fit/fit_vle = frame conditions (proved) + purity of the optimiser (assumed): equal data contents give identical coefficients")
     cx.assume_note("induction over the tried candidates (base: first-iteration obligations; step: generic iteration) is the standard loop rule; the induction principle is trusted")
